@@ -57,9 +57,12 @@ func NewPoller(d Diode, opts ...PollerConfigOption) *Poller {
 // If the context is done, then nil will be returned.
 func (p *Poller) Next() GenericDataType {
 	for {
+		// Read the cancellation state before looking for data: everything
+		// that was Set before the context was cancelled is then still drained.
+		done := p.isDone()
 		data, ok := p.Diode.TryNext()
 		if !ok {
-			if p.isDone() {
+			if done {
 				VerifAt("poller.next.done", 0)
 				return nil
 			}
